@@ -12,6 +12,12 @@ import (
 
 func exec(line string) zv.Out {
 	f := strings.Fields(line)
+	if len(f) == 5 && f[1] == "obs" {
+		return execObs(f)
+	}
+	if len(f) >= 2 && f[1] == "pem" {
+		return execPem(f)
+	}
 	if len(f) != 4 {
 		panic("bad c10 line")
 	}
@@ -28,6 +34,9 @@ func exec(line string) zv.Out {
 	g := Translate(u, rg.ZVDump())
 	if viol == "" {
 		viol = CheckInvariant(u, ops, g)
+	}
+	if viol == "" {
+		viol = CheckFirstIssuer(u, g)
 	}
 	// public observers agree with the internal state
 	if viol == "" {
@@ -378,6 +387,7 @@ func multiset(r *zv.Rng, n, m int) []Op {
 
 func gen(g *zv.Gen) {
 	r := g.Rng
+	genExtra(g)
 	emitAll := func(cs []CertSpec, ops []Op) {
 		tok := FormatSpecs(cs)
 		vm := Load(tok).VerifyMatrix()
@@ -463,5 +473,5 @@ func gen(g *zv.Gen) {
 
 func init() {
 	zv.Register(&zv.Prop{ID: "C10", Topic: "c10", Gen: gen, Exec: exec,
-		Rule: "universes of real certificates (ECDSA P-256; plus RSA twins = one RSA key under two SubjectPublicKeyInfo encodings, so that several nodes verify one certificate; 6 handcrafted: chain, cross-sign, self-issued rollover, dangling issuers, same-subject different-key CAs, cyclic cross-signs; 9 x 2 universes around an issuer that really signed its children but is not authorised to sign by RFC 5280: cA=FALSE, v3 without basicConstraints, keyUsage without keyCertSign (digitalSignature / keyEncipherment only), keyUsage with keyCertSign as control, X.509 v1, validity period expired before / starting after the children's, both as intermediate and as self-signed certificate; random ones over small (name,key) pools with wrong-key, unknown-name and corrupted-signature issuers, every other one with such authority flavours on random certificates); ALL distinct permutations of insertion multisets (AddCert/AddRoot, duplicates, root re-insertions) of up to 6 (quick) / 7 (thorough) operations, 20 sampled orders of 6..9-certificate universes; a case is one (universe, order); T3 = the property's invariant evaluated on the hook's dump of the real graph + comparison with the canonical-order graph up to issuer choice"})
+		Rule: "universes of real certificates (ECDSA P-256; plus RSA twins = one RSA key under two SubjectPublicKeyInfo encodings, so that several nodes verify one certificate; 6 handcrafted: chain, cross-sign, self-issued rollover, dangling issuers, same-subject different-key CAs, cyclic cross-signs; 9 x 2 universes around an issuer that really signed its children but is not authorised to sign by RFC 5280: cA=FALSE, v3 without basicConstraints, keyUsage without keyCertSign (digitalSignature / keyEncipherment only), keyUsage with keyCertSign as control, X.509 v1, validity period expired before / starting after the children's, both as intermediate and as self-signed certificate; random ones over small (name,key) pools with wrong-key, unknown-name and corrupted-signature issuers, every other one with such authority flavours on random certificates); ALL distinct permutations of insertion multisets (AddCert/AddRoot, duplicates, root re-insertions) of up to 6 (quick) / 7 (thorough) operations, 20 sampled orders of 6..9-certificate universes; a case is one (universe, order); T3 = the property's invariant evaluated on the hook's dump of the real graph + issuer = first verifying node in g.nodes order + comparison with the canonical-order graph up to issuer choice; stream `c10 obs`: real Nodes/Edges/FindEdge/FindNode/IsRoot vs the model on random sub-multisets (certificates left out, AddCert/AddRoot in both orders) of the handcrafted, twin and 40/300 random universes; stream `c10 pem`: real AppendFromPEMErr and AppendFromPEM on PEM byte streams assembled from items (certificate under label CERTIFICATE / TRUSTED CERTIFICATE / with headers, garbage DER, truncated certificate, PRIVATE KEY block, free text, broken base64, mismatched END label, BEGIN without END, 70000 block-free bytes) appended with either root flag to empty or pre-filled graphs, plus every block order of 3/6 handcrafted universes; compared: count, number of parsing errors, read error, wrapper count, full dump"})
 }
